@@ -233,3 +233,6 @@ pub mod sync;
 pub mod timer;
 
 mod utils;
+
+#[cfg(all(futures_intrusive_verif, feature = "alloc"))]
+pub mod verif;
